@@ -10,6 +10,9 @@ The per-clause items share one solver call per input through a memo that `run` p
 
 Input (JSON): [adjacency, lc_method, n_iso, n_lc, seed, sort_emit, lc_orbit_depth]     lc_method: string or null
               default-setting item: [adjacency, "setting-object" | "none", seed]
+              optional 8th field {"form": ..., "twice": ..., "order": [...], constructor options}; "order" (also as optional 4th field
+              of the default-setting form): the target is a networkx graph with labels 0..n-1, adjacency BY LABEL, whose nodes were
+              INSERTED in that order (insertion order != sorted label order; the map and the clauses speak about LABELS)
 """
 from __future__ import annotations
 
@@ -118,11 +121,24 @@ def _circuit_check(circ, T, perm, tag):
 FORMS = ("graph_np", "graph_np_float", "graph_plain", "qs_g", "qs_s", "qs_dm")
 
 
-def _make_target(A, form):
+def _ordered_graph(A, order):
+    """labels 0..n-1, adjacency A by LABEL, nodes inserted in the order `order` (g.nodes() lists `order`); no edge attributes"""
+    n = len(A)
+    g = nx.Graph()
+    g.add_nodes_from([int(u) for u in order])
+    g.add_edges_from([(i, j) for i in range(n) for j in range(i + 1, n) if A[i][j]])
+    assert list(g.nodes) == [int(u) for u in order] and sorted(g.nodes) == list(range(n))
+    return g
+
+
+def _make_target(A, form, order=None):
     """the target handed to the solver: the same labelled graph state, constructed in different ways (vertex i = row i of A)"""
     from graphiq.state import QuantumState
 
     n = len(A)
+    if order is not None:
+        g = _ordered_graph(A, order)
+        return QuantumState(g, rep_type="g") if form == "qs_g" else g
     if form == "graph_np":
         return nx.from_numpy_array(A.copy())  # edges carry integer 'weight' attributes
     if form == "graph_np_float":
@@ -165,8 +181,8 @@ def _snapshot(target):
     return ("qs", rep, np.round(np.array(data), 9).tolist())
 
 
-def _solve(A, setting, seed, form="graph_np", twice=False):
-    target = _make_target(A, form)
+def _solve(A, setting, seed, form="graph_np", twice=False, order=None):
+    target = _make_target(A, form, order)
     before = _snapshot(target)
     solver = AlternateTargetSolver(target=target, solver_setting=setting, seed=seed)
     np.random.seed(0 if seed is None else seed)  # the "random*" orbit methods draw from the global numpy generator
@@ -213,8 +229,10 @@ def _evaluate(inp):
     """-> {clause: symptom|None}; exceptions of the solver are a failure of 'returns' unless they are the documented refusals"""
     res = {c: None for c in CLAUSES}
     try:
-        if len(inp) == 3:  # default-setting form
-            a, how, seed = inp
+        order = None
+        if len(inp) in (3, 4) and isinstance(inp[1], str) and inp[1] in ("setting-object", "none"):  # default-setting form
+            a, how, seed = inp[:3]
+            order = inp[3] if len(inp) == 4 else None
             A = _A(a)
             setting = AlternateTargetSolverSetting() if how == "setting-object" else None
             method, n_iso = "default", (10 if how == "setting-object" else 1)
@@ -222,11 +240,15 @@ def _evaluate(inp):
             a, method, n_iso, n_lc, seed, sort_emit, depth = inp[:7]
             extra = dict(inp[7]) if len(inp) > 7 else {}
             form, twice = extra.pop("form", "graph_np"), bool(extra.pop("twice", False))
+            order = extra.pop("order", None)
             A = _A(a)
             setting = AlternateTargetSolverSetting(n_iso_graphs=n_iso, n_lc_graphs=n_lc, lc_method=method, sort_emit=bool(sort_emit),
                                                    lc_orbit_depth=depth, **extra)  # extra: further constructor options (label_map, ...)
         try:
-            solver, out = _solve(A, setting, seed, form, twice) if len(inp) != 3 else _solve(A, setting, seed)
+            if method == "default":
+                solver, out = _solve(A, setting, seed, order=order)
+            else:
+                solver, out = _solve(A, setting, seed, form, twice, order)
         except AssertionError as e:
             msg = str(e)
             if "more than the maximum possible" in msg and n_iso > math.factorial(len(A)):
@@ -275,7 +297,9 @@ _BOUND = ("fixed list, seed-independent (touches known finding KF-C10-1 through 
           "QuantumState in graph, stabilizer (hand-built CliffordTableau) and density-matrix form x lc_method in {None, random_with_rep} x "
           "(n_iso,n_lc)=(3,2); 12 graphs on 5..6 vertices (7 five-vertex classes, C6, K_{3,3}, prism, S6, P6) x 6 orbit methods x n_iso=4, "
           "n_lc=3, sort_emit on/off alternating, lc_orbit_depth in {None,2,3}; solve() called twice on one solver object (10 inputs); "
-          "constructor options label_map / allow_exhaustive / rel_inc_thresh / iso_thresh on {P4, C5, K4, S5} x n_iso in {2, 8} (label_map also 20; former finding KF-C10-3, repaired by 706ab41)")
+          "constructor options label_map / allow_exhaustive / rel_inc_thresh / iso_thresh on {P4, C5, K4, S5} x n_iso in {2, 8} (label_map also 20; former finding KF-C10-3, repaired by 706ab41)"
+          "; INSERTION ORDER (fixed): 9 targets (P4 P5 P6, trees K1,3 / 5-fork / 6-spider, C4 C5 C6 with a chord) as networkx graphs (2 of 3 plain, 1 of 3 "
+          "inside a QuantumState) whose nodes were inserted in 3 orders != sorted label order (first: 0,n-1,1,..,n-2) x n_iso in {1,3}, n_lc=2, lc_method None")
 
 
 @S.item("solve.returns", site=_SITE, bound=_BOUND, exhaustive=True,
@@ -318,6 +342,74 @@ def c_default(inp):
     return None
 
 
+@S.item("solve.default_setting.insertion_order", site="graphiq.solvers.alternate_target_solver:AlternateTargetSolver.solve;graphiq.utils.relabel_module:get_relabel_map",
+        bound="fixed list: default settings (AlternateTargetSolverSetting() and solver_setting=None) x 9 targets (paths P4 P5 P6, trees K1,3 / "
+              "5-vertex fork / 6-vertex spider, cycles C4 C5 C6 with one chord) x 3 insertion orders of the networkx nodes that differ from "
+              "sorted label order and move the edge set, seed 1; solver_setting=None on all 27, AlternateTargetSolverSetting() (10 isomorphs) on the "
+              "three 4-vertex targets x first 2 orders (6) (the non-default settings n_iso in {1,3} on the same targets run in the solve.* items)",
+        exhaustive=True,
+        clause="... including the default setting: every entry (also the single entry coming from the isomorph equal to the target) carries a map "
+               "on the target's LABELS under which the circuit generates the renamed target (all clauses judged on the result)")
+def c_default_order(inp):
+    return c_default(inp)
+
+
+def _relabel_graphs(inp):
+    """-> (A1 by label, g1, g2 as handed over, label adjacency of g2 as a dict of frozenset edges, labels of g2)"""
+    a, order, kind, par = inp
+    A = _A(a)
+    n = len(A)
+    o = [int(u) for u in order]
+    P = A[np.ix_(o, o)]  # adjacency of g1 by insertion position
+    g1 = _ordered_graph(A, o)
+    if kind in ("same_by_position", "array"):  # what solve() does: the isomorph equal to the target, rebuilt from the matrix
+        Q, o2 = P, list(range(n))
+    elif kind == "same_by_position_shuffled":  # g2: other labels in another insertion order, same matrix by position
+        Q, o2 = P, [int(u) for u in par]
+    else:  # "isomorph": vertex at position i of g1 becomes vertex par[i]
+        Q, o2 = L.relabelled(P, [int(u) for u in par]), list(range(n))
+    g2 = nx.Graph()
+    g2.add_nodes_from(o2)
+    e2 = {frozenset((o2[i], o2[j])) for i in range(n) for j in range(i + 1, n) if Q[i][j]}
+    g2.add_edges_from([tuple(sorted(e)) for e in sorted(e2, key=sorted)])
+    if kind == "array":
+        return A, g1, np.array(Q, dtype=int), e2, o2
+    return A, g1, g2, e2, o2
+
+
+@S.item("get_relabel_map.edges_by_label", site="graphiq.utils.relabel_module:get_relabel_map",
+        bound="g1: all connected non-complete labelled graphs on 3..4 vertices (40) + one per isomorphism class on 5 vertices (20) + P6, C6+chord, 6-spider, as "
+              "networkx graphs with labels 0..n-1 in 3 fixed insertion orders != sorted order that move the edge set, x 4 kinds of g2 (756); + seeded "
+              "(graph, order, kind, permutation) draws: quick 60, thorough 400; "
+              "g2: the same adjacency by position rebuilt as nx.from_numpy_array would (labels 0..n-1 in order), as an ndarray, with other "
+              "insertion-ordered labels, and a relabelled isomorph; the function cannot reach known finding KF-C10-1 (no solver call)",
+        clause="the relabel map m of an entry renames the target's vertices: (m[u], m[v]) is an edge of g2 iff (u, v) is an edge of g1, for LABELS "
+               "u, v; m is a bijection from g1's labels onto g2's; g1 and g2 are not modified")
+def c_relabel_map(inp):
+    from graphiq.utils.relabel_module import get_relabel_map
+
+    A, g1, g2, e2, labels2 = _relabel_graphs(inp)
+    n = len(A)
+    isg = isinstance(g2, nx.Graph)
+    before = (list(g1.nodes), sorted(map(sorted, g1.edges)), (list(g2.nodes), sorted(map(sorted, g2.edges))) if isg else g2.tobytes())
+    m = get_relabel_map(g1, g2)
+    after = (list(g1.nodes), sorted(map(sorted, g1.edges)), (list(g2.nodes), sorted(map(sorted, g2.edges))) if isg else g2.tobytes())
+    if before != after:
+        return "get_relabel_map modified a graph it was given"
+    try:
+        img = [m[u] for u in range(n)]
+    except Exception:  # noqa: BLE001
+        return f"map {m!r} does not map every label 0..{n - 1} of g1"
+    if sorted(img) != sorted(labels2):
+        return f"map {m!r} is not a bijection from g1's labels onto g2's labels {sorted(labels2)}"
+    for u in range(n):
+        for v in range(u + 1, n):
+            if bool(A[u][v]) != (frozenset((img[u], img[v])) in e2):
+                return (f"g1 (nodes inserted as {list(g1.nodes)}) {'has' if A[u][v] else 'has no'} edge ({u},{v}) but g2 "
+                        f"{'has' if frozenset((img[u], img[v])) in e2 else 'has no'} edge ({img[u]},{img[v]}) under the returned map {m!r}")
+    return None
+
+
 # ------------------------------------------------------------------ domain
 def _iso_classes(graphs):
     reps = []
@@ -325,6 +417,53 @@ def _iso_classes(graphs):
         if not any(L.find_isomorphism(B, A) is not None for B in reps):
             reps.append(A)
     return reps
+
+
+def _chorded_cycle(n):
+    A = L.path_graph(n)
+    A[0, n - 1] = A[n - 1, 0] = 1
+    A[0, 2] = A[2, 0] = 1
+    return A
+
+
+def _tree(n, edges):
+    A = np.zeros((n, n), dtype=int)
+    for i, j in edges:
+        A[i, j] = A[j, i] = 1
+    return A
+
+
+def _orders(A, k=3):
+    """k fixed insertion orders (no run seed): [0, n-1, 1, ..., n-2] first, then draws of a fixed generator; each moves the edge set"""
+    A = np.array(A, dtype=int)
+    n = len(A)
+    rng = np.random.default_rng(1000 + n + int(A.sum()))
+    out = []
+    cand = [[0, n - 1] + list(range(1, n - 1))]
+    while len(out) < k:
+        o = cand.pop(0) if cand else [int(x) for x in rng.permutation(n)]
+        if o not in out and not np.array_equal(A[np.ix_(o, o)], A):
+            out.append(o)
+    return out
+
+
+def order_targets():
+    return [L.path_graph(4), L.path_graph(5), L.path_graph(6),
+            _tree(4, [(0, 1), (0, 2), (0, 3)]), _tree(5, [(0, 1), (1, 2), (1, 3), (3, 4)]), _tree(6, [(0, 1), (0, 2), (0, 3), (3, 4), (2, 5)]),
+            _chorded_cycle(4), _chorded_cycle(5), _chorded_cycle(6)]
+
+
+def order_inputs():
+    """FIXED list (H5): targets whose networkx nodes were inserted in another order than sorted label order"""
+    out, dflt = [], []
+    for k, A in enumerate(order_targets()):
+        for j, o in enumerate(_orders(A)):
+            for n_iso in (1, 3):
+                out.append([A.tolist(), None, n_iso, 2, 1, True, None, {"form": ("graph_plain", "qs_g")[(k + j) % 3 == 2], "order": o}])
+            for how in ("setting-object", "none"):
+                if how == "none" or (len(A) == 4 and j < 2):  # AlternateTargetSolverSetting(): 10 isomorphs, costly on 6 vertices
+                    dflt.append([A.tolist(), how, 1, o])
+    return out, dflt
 
 
 def hardening_inputs(conn):
@@ -394,6 +533,8 @@ def run(tier, seed):
         for m in ("linear", "rgs", None):
             inputs.append([F.tolist(), m, 2, 4, 1, True, None])
     inputs += hardening_inputs(conn)
+    ord_inputs, ord_defaults = order_inputs()
+    inputs += ord_inputs
     seen = set()
     uniq = []
     for i in inputs:
@@ -416,12 +557,31 @@ def run(tier, seed):
     K4 = np.ones((4, 4), dtype=int) - np.eye(4, dtype=int)
     defaults = [[G.tolist(), how, 1] for G in (P(4), star, C(4), K4, P(5), C(5)) for how in ("setting-object", "none")]
 
-    dt = _prefill(inputs + defaults)
+    dt = _prefill(inputs + defaults + ord_defaults)
     nontrivial = lambda i: len(i[0]) >= 3 and (i[2] > 1 or i[3] > 1)  # noqa: E731
     for name in ("solve.returns", "solve.circuit_generates_relabelled_target", "solve.graph_in_orbit_of_relabelled_target",
                  "solve.no_duplicate_graphs", "solve.target_unchanged"):
         S.map(name, inputs, nontrivial=nontrivial, procs=1)
     S.map("solve.default_setting", defaults, procs=1)
+    S.map("solve.default_setting.insertion_order", ord_defaults, procs=1)
+    # get_relabel_map directly
+    rng = np.random.default_rng(seed)
+    g1s = [A for n in (3, 4) for A in conn[n]] + _iso_classes(conn[5]) + [L.path_graph(6), _chorded_cycle(6), order_targets()[5]]
+    rm = []
+    for A in g1s:
+        n = len(A)
+        if np.array_equal(A, np.ones((n, n), dtype=int) - np.eye(n, dtype=int)):
+            continue  # complete graph: every order leaves the edge set where it is
+        for j, o in enumerate(_orders(A)):
+            o2 = [int(x) for x in np.random.default_rng(7 * n + j).permutation(n)]
+            rm += [[A.tolist(), o, "same_by_position", None], [A.tolist(), o, "array", None],
+                   [A.tolist(), o, "same_by_position_shuffled", o2], [A.tolist(), o, "isomorph", o2]]
+    for _ in range(400 if thorough else 60):
+        A = g1s[int(rng.integers(len(g1s)))]
+        n = len(A)
+        kind = ("same_by_position", "array", "same_by_position_shuffled", "isomorph")[int(rng.integers(4))]
+        rm.append([A.tolist(), [int(x) for x in rng.permutation(n)], kind, [int(x) for x in rng.permutation(n)]])
+    S.map("get_relabel_map.edges_by_label", rm, nontrivial=lambda i: not np.array_equal(_A(i[0])[np.ix_(i[1], i[1])], _A(i[0])))
     S.items["solve.returns"].wall_s += dt  # the shared solver calls
     S.note(f"one solver call per input shared by the clause items ({len(inputs) + len(defaults)} calls, {dt:.1f}s on the pool)")
     S.note("accepted refusals: iso_finder's assert when n_iso > n!; the 'rgs' / 'linear' methods' own asserts on targets outside their family")
